@@ -4,8 +4,9 @@
    One scenario = one (asset, URL configuration, format, language, cue duration, region).  Events:
      hdr   {N, dur, vod0, TS, loopMS, snr, ast, mode, ... (ground truth of the reference VIDEO representation, see
             LiveTimeline_Trace) + fmt "stpp"|"wvtt", lang, langs <<..>>, c (cue duration ms), reg 0|1}
-     init  {st, ts, codec}                 init segment of the subtitle representation
-     sub   {k, i, st, nrp, tfdt, dur, cues, samples, regdefs}   one served subtitle segment, index n = k*N+i chosen by
+     init  {st, ts, codec, lang, ilang, mdhd, elng}   init segment of a subtitle representation (lang = its language)
+     lset  {reps <<[lang, rep, ist, mst, idig, mdig, nc]>>}  init/media status and body digests of every Representation one MPD announces
+     sub   {k, i, st, lang, doclangs, nrp, tfdt, dur, cues, samples, regdefs}   one served subtitle segment, index n = k*N+i chosen by
             the driver; nrp = (mfhd - snr) as pair over N; tfdt = decode time (ms) as pair over loopMS; dur = sum of the
             sample durations (ms); cues = <<[b, e, so, ok, nts, toks, nrs, reg]>>: begin/end in ms MINUS tfdt, so = (UTC second
             parsed from the cue text) - floor((tfdt + 1000*ast)/1000), ok = times parsed, nts = number of RFC 3339 stamps
@@ -34,8 +35,14 @@ Hdr == /\ e.ev = "hdr"
                                    /\ e.c >= 1 /\ e.fmt \in {"stpp", "wvtt"} /\ e.reg \in {0, 1}, "scenario header")
        /\ h' = l
 
+\* every event of a Representation carries the language of that Representation (e.lang): the requested one, or - in the
+\* sweep over the Representations announced by an MPD - the @lang of the announcing AdaptationSet
 InitSeg == /\ e.ev = "init"
-           /\ Clause("C12.meta", e.st = 200 /\ e.ts = 1000 /\ e.codec = H.fmt, <<"init: status", e.st, "timescale", e.ts, "sample entry", e.codec>>)
+           /\ Clause("C12.served", e.st = 200, <<"init: status", e.st, "language", e.lang>>)
+           /\ IF e.st # 200 THEN TRUE ELSE
+              /\ Clause("C12.meta", e.ts = 1000 /\ e.codec = H.fmt, <<"init: timescale", e.ts, "sample entry", e.codec>>)
+              \* C12.lang: the track language (elng, or mdhd for a three-letter tag) is the Representation's language, exactly
+              /\ Clause("C12.lang", e.ilang = e.lang, <<"init: language", e.ilang, "mdhd", e.mdhd, "elng", e.elng, "representation language", e.lang>>)
            /\ UNCHANGED h
 
 \* observed cue list in the oracle's shape
@@ -58,9 +65,12 @@ Sub == /\ e.ev = "sub"
                                           /\ obs \in TSAccepted(1000, ph, D, H.c),
                     <<"cues", obs, "phase", ph, "D", D, "c", H.c, "accepted", IF D >= 1 THEN TSAccepted(1000, ph, D, H.c) ELSE {}>>)
           \* ... the language and the segment number
-          /\ Clause("C12.text", \A x \in 1..Len(e.cues) : H.lang \in Range(e.cues[x].toks) /\ <<e.k, e.i>> \in Range(e.cues[x].nrs),
-                    <<"lang", H.lang, "nr_minus_snr", <<e.k, e.i>>, "cue words", [x \in 1..Len(e.cues) |-> e.cues[x].toks],
+          /\ Clause("C12.text", \A x \in 1..Len(e.cues) : e.lang \in Range(e.cues[x].toks) /\ <<e.k, e.i>> \in Range(e.cues[x].nrs),
+                    <<"lang", e.lang, "nr_minus_snr", <<e.k, e.i>>, "cue words", [x \in 1..Len(e.cues) |-> e.cues[x].toks],
                       "cue numbers", [x \in 1..Len(e.cues) |-> e.cues[x].nrs]>>)
+          \* C12.lang: a TTML document declares the Representation's language, exactly
+          /\ Clause("C12.lang", H.fmt = "stpp" => Len(e.doclangs) >= 1 /\ \A x \in 1..Len(e.doclangs) : e.doclangs[x] = e.lang,
+                    <<"xml:lang", e.doclangs, "representation language", e.lang>>)
           \* ordered, non-overlapping, inside the segment
           /\ Clause("C12.order", TSWellFormed(obs, D), <<"cues", obs, "D", D, "phase", ph, "c", H.c>>)
           \* wvtt samples tile the segment exactly
@@ -74,6 +84,17 @@ Sub == /\ e.ev = "sub"
 RegPair == /\ e.ev = "regpair"
            /\ Clause("C12.region", e.d0 # e.d1 /\ e.q0 = e.q1, <<"region 0", e.d0, "region 1", e.d1, "cue digests", e.q0, e.q1>>)
            /\ UNCHANGED h
+
+\* C12.tracks: the Representations announced by one MPD for distinct languages are distinct tracks (init and media differ)
+LSet == /\ e.ev = "lset"
+        /\ Clause("C12.tracks", \A x, y \in 1..Len(e.reps) :
+                       (x < y /\ e.reps[x].ist = 200 /\ e.reps[y].ist = 200 /\ e.reps[x].mst = 200 /\ e.reps[y].mst = 200) =>
+                          /\ e.reps[x].lang # e.reps[y].lang
+                          /\ e.reps[x].idig # e.reps[y].idig
+                          \* (a wvtt segment without any cue - only empty samples - carries no language)
+                          /\ (H.fmt = "stpp" \/ (e.reps[x].nc > 0 /\ e.reps[y].nc > 0)) => e.reps[x].mdig # e.reps[y].mdig,
+                   <<"representations", e.reps>>)
+        /\ UNCHANGED h
 
 \* the generated text AdaptationSets mirror the video timeline in milliseconds
 TxtOK(t, v) ==
@@ -98,7 +119,7 @@ Mpd == /\ e.ev = "mpd"
                                                             "text_segs", e.txt[x].segs, "video_segs", e.vid.segs>>)
        /\ UNCHANGED h
 
-Step == l <= Len(Trace) /\ (Hdr \/ InitSeg \/ Sub \/ RegPair \/ Mpd) /\ l' = l + 1
+Step == l <= Len(Trace) /\ (Hdr \/ InitSeg \/ Sub \/ RegPair \/ Mpd \/ LSet) /\ l' = l + 1
 Done == l = Len(Trace) + 1 /\ Consumed(Len(Trace)) /\ UNCHANGED vars
 Spec == Init /\ [][Step \/ Done]_vars
 Accepted == NoBad
